@@ -24,7 +24,7 @@ func verifBodyInput(op *openapi3.Operation, ct string, body string, hasBody bool
 	return &RequestValidationInput{Request: req, Route: &routers.Route{Spec: &openapi3.T{}, PathItem: &openapi3.PathItem{Post: op}, Operation: op, Method: "POST"}, Options: opts, QueryParams: url.Values{}, PathParams: map[string]string{}}
 }
 
-//verif:harness id=C06 tier=quick,thorough witness=end bounds="ValidateRequestBody dispatch: body required/optional x declared content in {text/plain, text/*, */*, none} (schema string maxLength symbolic uint64, or no schema) x Content-Type in {text/plain, text/plain;charset=x, text/html, application/x-other, absent} x body absent / empty / 1-2 ASCII bytes"
+//verif:harness id=C06 tier=quick,thorough witness=end bounds="ValidateRequestBody dispatch: body required/optional x declared content in {text/plain, text/*, */*, none} (schema string maxLength symbolic uint64, or no schema) x Content-Type in {text/plain, text/plain;charset=x, text/html, application/x-other, absent} x body absent / empty / 1-2 bytes of printable ASCII, space, tab, CR, LF"
 func verifH_C06_dispatch() {
 	maxLen := verifNondetUint64("maxLen")
 	schema := &openapi3.SchemaRef{Value: &openapi3.Schema{Type: &openapi3.Types{"string"}, MaxLength: &maxLen}}
@@ -43,7 +43,11 @@ func verifH_C06_dispatch() {
 	presence := verifChoose("body", 3) // 0 absent, 1 empty, 2 text
 	text := ""
 	if presence == 2 {
-		text = verifLeaf("b", 2, "")
+		// printable ASCII and the white space bytes: a body of blanks is a body
+		text = verifNondetStringN("b", 1+verifChoose("b.len", 2))
+		for i := 0; i < len(text); i++ {
+			verifAssume((text[i] >= 0x20 && text[i] < 0x7f) || text[i] == '\t' || text[i] == '\n' || text[i] == '\r')
+		}
 	}
 	input := verifBodyInput(op, ct, text, presence != 0, &Options{})
 	err := ValidateRequestBody(context.Background(), input, rb)
